@@ -295,14 +295,62 @@ class C13(Prop):
         for i in range(len(tpool)):
             for j in range(len(tpool)):
                 enc.append("E Dns " + G.canon(PC.name_seq_msg([tpool[i], tpool[j], tpool[i]])))
-        return [("parse", parse), ("eq-hash", eq), ("text-roundtrip", rt), ("compression-targets", enc)]
+        # wire decoding enforces the same limits as text parsing and appending: every label length octet 0..=70 (and the
+        # reserved 0x40..0xbf range) in first / middle / last position and behind a pointer, names of 250..=259 wire octets
+        import streams as S
+        wire = []
+        lab = lambda k: bytes([k]) + bytes(97 + (i % 26) for i in range(k))
+        for k in list(range(0, 71)) + [100, 127, 128, 191]:
+            body = bytes([k & 0xFF]) + bytes(97 + (i % 26) for i in range(k))
+            wire.append(S.d("DomainName", body + b"\x00"))
+            wire.append(S.d("DomainName", lab(3) + body + b"\x00"))
+            wire.append(S.d("DomainName", body + lab(3) + b"\x00"))
+            wire.append(S.d("DomainName", body))                                  # no terminating octet
+            # the label behind a pointer: name at 0 = pointer to offset 2, where the label sits
+            wire.append(S.d("DomainName", b"\xc0\x02" + body + b"\x00"))
+            wire.append(S.d("DomainName", lab(1) + b"\xc0\x04" + body + b"\x00"))
+        for total in range(250, 260):
+            for first in (63, 62, 1, 2, 33):
+                labs, left = [], total - 1
+                k = first
+                while left > 1:
+                    k = min(left - 1, k)
+                    labs.append(lab(k))
+                    left -= k + 1
+                    k = 63
+                if left == 1:
+                    continue
+                wire.append(S.d("DomainName", b"".join(labs) + b"\x00"))
+                # the same name, its tail reached through a pointer
+                tail = b"".join(labs[1:]) + b"\x00"
+                wire.append(S.d("DomainName", labs[0] + bytes([0xC0, len(labs[0]) + 2]) + tail))
+        return [("parse", parse), ("eq-hash", eq), ("text-roundtrip", rt), ("compression-targets", enc), ("wire-limits", wire)]
 
     def nontrivial(self, case, line):
         return True
 
+    def view(self, case, line):
+        if case.startswith("D "):
+            import props_codec as PC
+            dd = PC.parse_d(line)
+            return dd["status"] if dd["status"] != "OK" else "OK " + dd["canon"]
+        return line
+
     def oracle(self, case, line):
         if line.startswith("PANIC"):
             return "implementation panicked: " + line[:200]
+        if case.startswith("D "):
+            import props_codec as PC
+            dd = PC.parse_d(line)
+            e, wbytes = PC.case_wire(case)
+            r = R.ref_decode(e, wbytes)
+            if dd["status"] == "OK" and r[0] != "OK":
+                return "wire name accepted although it breaks the limits (labels 1..=63 octets, name <= 255 octets): %s" % r[1]
+            if dd["status"] == "ERR" and r[0] == "OK":
+                return "wire name within the limits rejected: %s" % dd["err"]
+            if dd["status"] == "OK" and r[1] != dd["canon"]:
+                return "decoded name differs from the wire: library %s reference %s" % (dd["canon"][:200], r[1][:200])
+            return None
         w = case.split(" ", 2)
         if w[0] == "E":
             import props_codec as PC
@@ -345,8 +393,10 @@ class C13(Prop):
     def rule(self):
         return ("X cases: parse of label strings of 0..=70 octets over an alphabet with upper/lower ASCII, digits, NUL, '.', "
                 "multi-byte UTF-8 incl. U+212A, U+0130, U+1E9E; names of 250..=259 wire octets; equality/hash pairs (full "
-                "cross product of a special-label pool, random case-flipped pairs); Display->parse round trips; every case "
-                "non-trivial; distinct by text")
+                "cross product of a special-label pool, random case-flipped pairs); Display->parse round trips; D DomainName "
+                "cases for every label length octet 0..=70 (+100, 127, 128, 191) in first/middle/last position and behind a "
+                "pointer, and wire names of 250..=259 octets plain and through a pointer, judged by the reference decoder in "
+                "both directions; every case non-trivial; distinct by text")
 
     def assumptions(self):
         return ["the hasher is std's DefaultHasher with fixed keys in the harness; the theorem quantifies over every hasher (function of the fed octets)",
